@@ -48,7 +48,7 @@ META.update({
         "proved: restricted grid = index-consistent subset of [start,end) (C08.window.*), set_restricted_grid passes the given window / the grid's own, "
         "every dispatch row of the classes under contract lies on it, empty windows are inert for Storage/Contract/Transport/OrderBook/ScaledAsset, no "
         "spurious raise; define_restr from the real source: a take period without a covered step inside horizon and window yields no row, otherwise "
-        "the right-hand side is the volume prorated by the covered duration. Bounded: take periods incl. asset windows reaching beyond the horizon. Known finding D25b. " + PROOF_NOTE)),
+        "the right-hand side is the volume prorated by the covered duration; Timegrid.prep_date_dict: naive dates are read in the grid's zone, zone-aware ones kept. Bounded: take periods incl. asset windows reaching beyond the horizon. Known finding D25b. " + PROOF_NOTE)),
     'C09': dict(level='other', assumptions=['A2', 'A3', 'A5', 'A6'], explanation=(
         "proved: the global variable index does not depend on names (offsets), names are only compared for equality in the functions under "
         "contract, discount factors and restricted grid are rebuilt per asset from its own parameters (set_timegrid, set_restricted_grid: nothing of an "
@@ -56,7 +56,7 @@ META.update({
     'C10': dict(level='other', assumptions=['A2', 'A3', 'A5'], explanation=(
         "proved: Asset.set_timegrid / Timegrid.set_restricted_grid rebuild the derived cache from an arbitrary prior state (also when the asset "
         "already holds the same grid object), the set-up functions of four asset classes do so too ('same grid object, another asset's cache' case), "
-        "frames (prices / orders / interval dictionaries / portfolio object not written). Bounded: histories <= 3 incl. own-frequency assets and an "
+        "frames (prices / orders / interval dictionaries / take dictionaries (prep_date_dict) / portfolio object not written); the four set-up contracts also when the grid was set before and another asset has overwritten the shared cache since ('preset' mode). Bounded: histories <= 3 incl. own-frequency assets and an "
         "order book; structured assets. " + PROOF_NOTE)),
     'C12': dict(level='other', assumptions=['A2', 'A3', 'A4', 'A5'], explanation="proved: dt = elapsed/unit for root (Tick) and coarse grids, make_vector converts with the window's own step lengths, storage holding cost uses each later step's own length; unit-scaling lemmas for every entry form. Bounded: real grids over DST in two units. Note A4: freq 'd' with a time zone is calendar-day based in pandas (bounded part decides it)."),
     'C14': dict(level='other', assumptions=['A2', 'A3', 'A4', 'A5', 'A6'], explanation=(
